@@ -249,6 +249,8 @@ func (x *Exec) doCall(st *State, fr *Frame, at ssa.Instruction, cc *ssa.CallComm
 	var fc *FuncContract
 	if c := x.P.C.Funcs[callee]; c != nil {
 		fc = c
+	} else if i := strings.Index(callee, "["); i > 0 && strings.HasSuffix(callee, "]") {
+		fc = x.P.C.Funcs[callee[:i]] // instance of a generic function: the contract of its origin
 	}
 	// inline: flagged helpers and synthetic wrappers
 	if fn != nil && len(fn.Blocks) > 0 && len(st.frames) < 6 {
